@@ -74,7 +74,10 @@ func rtTemp() string {
 	return rtTmpDir
 }
 
-func rtBuild(x *rtCtx, op Op, src map[interface{}]int) string {
+// rtBuild applies the constructors and features of a Build op. An error returned by the
+// library (a precondition of the call not met, e.g. a second merge over merged cells) is
+// recorded in errs and building continues; only harness-level trouble ends the step.
+func rtBuild(x *rtCtx, op Op, src map[interface{}]int, errs *[]string) string {
 	sect := rtStrings(op["sect"])
 	early := op.Str("se") == "first"
 	applySect := func() string {
@@ -84,7 +87,9 @@ func rtBuild(x *rtCtx, op Op, src map[interface{}]int) string {
 			if !ok {
 				return "unknown-feature:" + f
 			}
-			if r := fn(x); r != "ok" {
+			if r := fn(x); r == "err" {
+				*errs = append(*errs, f)
+			} else if r != "ok" {
 				return r + ":" + f
 			}
 		}
@@ -116,6 +121,11 @@ func rtBuild(x *rtCtx, op Op, src map[interface{}]int) string {
 			return "unknown-ctor:" + c
 		}
 		t, r := ctor(x, fs)
+		if r == "err" {
+			*errs = append(*errs, c)
+			mark(i + 1)
+			continue
+		}
 		if r != "ok" {
 			return r + ":" + c
 		}
@@ -127,7 +137,9 @@ func rtBuild(x *rtCtx, op Op, src map[interface{}]int) string {
 			if fn == nil {
 				continue // consumed by the constructor
 			}
-			if r := fn(x, t); r != "ok" {
+			if r := fn(x, t); r == "err" {
+				*errs = append(*errs, f)
+			} else if r != "ok" {
 				return r + ":" + f
 			}
 		}
@@ -152,12 +164,13 @@ func runRoundtrip(c Case, emit Emitter) {
 	nsave := 0
 	for i, op := range c.Steps {
 		var proj *rtProj
+		errs := []string{}
 		kind := "mem"
 		ret, pmsg := guard(func() string {
 			switch op.Name() {
 			case "Build":
 				src := map[interface{}]int{}
-				r := rtBuild(x, op, src)
+				r := rtBuild(x, op, src, &errs)
 				proj = rtMemProj(x.doc, src)
 				return r
 			case "Save":
@@ -225,7 +238,7 @@ func runRoundtrip(c Case, emit Emitter) {
 		}
 		logged = append(logged, string(js))
 		kinds = append(kinds, kind)
-		ev := Ev{"ev": "step", "case": c.ID, "i": i + 1, "op": op, "ret": ret, "pmsg": pmsg, "same": same}
+		ev := Ev{"ev": "step", "case": c.ID, "i": i + 1, "op": op, "ret": ret, "pmsg": pmsg, "same": same, "errs": errs}
 		if same > 0 {
 			ev["proj"] = rtEmptyProj()
 		} else {
